@@ -156,9 +156,13 @@ def f3_items(tier):
     shp = tier_shapes(tier, (3, 2, 2, 2), (3, 3, 2, 2))
     out = []
     for sh in shp:
-        for nset in ((0, 1, 2) if tier != 'quick' or len(sh) <= 2 else (1, 2)):
+        for nset in (0, 1, 2):
             for bk in ('11', '10', '01', '00'):
-                if tier == 'quick' and bk in ('10', '01') and len(sh) > 2:
+                if tier == 'quick' and len(sh) > 2:
+                    # quick tier: three change points only with one new setting and both bounds given (or none)
+                    if nset != 1 or bk in ('10', '01'):
+                        continue
+                if nset == 0 and len(sh) > 2:
                     continue
                 out.append([sh, nset, bk])
     return out
@@ -261,3 +265,78 @@ def m1_task(envr, item):
 GROUPS.append(Group('M1', 'clear_formatting leaves the text with no settings', ['C07'], 'U',
                     ['AnsiString.clear_formatting'], m1_items, m1_task,
                     bounds='the function is loop free; the table shapes only vary the pre-state'))
+
+
+# ============================================================================================= A1
+CL_A1 = [
+    Clause('text-is-concatenation', 'post_iadd_text'),
+    Clause('returns-self', 'post_iadd_returns_self'),
+    Clause('each-character-keeps-its-operand-settings', 'post_iadd_view', forall='iadd_k_range'),
+    Clause('wf-no-bleed-at-seam', 'post_self_wf'),
+    Clause('result-shares-no-container-with-right-operand', 'post_iadd_value_separate'),
+]
+RAISES_A1 = {'TypeError': 'raises_iadd_type'}
+
+
+def a1_items(tier):
+    if tier == 'quick':
+        sa = shapes.table_shapes(2, 2, 2, 2)
+        sb = shapes.table_shapes(2, 2, 2, 2)
+        sa3 = [s for s in shapes.table_shapes(3, 2, 2, 2) if len(s) == 3][:8]
+    else:
+        sa = shapes.table_shapes(3, 2, 2, 2)
+        sb = shapes.table_shapes(3, 2, 2, 2)
+        sa3 = []
+    out = []
+    for a in sa + sa3:
+        for b in sb:
+            for share in ((False, True) if (shapes.shape_nobj(a) and shapes.shape_nobj(b)) else (False,)):
+                out.append([a, b, 'ansistring', share])
+        out.append([a, [], 'self', False])
+        out.append([a, [], 'str', False])
+        out.append([a, [], 'badtype', False])
+    for b in sb:
+        out.append([[], b, 'ansistr', False])
+    return out
+
+
+def a1_task(envr, item):
+    sa, sb, kind, share = item
+
+    def body(c):
+        a, ia = shapes.build_ansistring(c, sa, 'a')
+        if kind == 'self':
+            value = a
+        elif kind == 'str':
+            T = c.opaque_text('Tv')
+            T.escfree = True
+            value = sym.s_opaque(T)
+        elif kind == 'badtype':
+            value = c.named_int('v')
+        else:
+            sett = dict(ia['objs']) if share else None
+            b, ib = shapes.build_ansistring(c, sb, 'b', settings=sett)
+            value = b
+            if kind == 'ansistr':
+                value = PObj('AnsiStr', {'__payload__': sym.s_opaque(c.opaque_text('Pay')), '_s': b})
+        frame = ('value',) if kind not in ('self',) else ()
+        run_contract(envr, c, 'AnsiString.__iadd__', a, [value], {}, CL_A1X if kind in ('str', 'ansistr') else CL_A1,
+                     raises=RAISES_A1, frame=frame)
+    return ContractRun(body, CL_A1X if kind in ('str', 'ansistr') else CL_A1, raises=RAISES_A1,
+                       frame=('value',) if kind != 'self' else ())
+
+
+CL_A1X = [
+    Clause('text-is-concatenation', 'post_iadd_text_any'),
+    Clause('returns-self', 'post_iadd_returns_self'),
+    Clause('each-character-keeps-its-operand-settings', 'post_iadd_view_any', forall='iadd_k_range_any'),
+    Clause('wf-no-bleed-at-seam', 'post_self_wf'),
+]
+
+GROUPS.append(Group('A1', '__iadd__: text concatenated, each operand keeps its per-character settings, no bleed, operand untouched',
+                    ['C05', 'C08', 'C09', 'C11'], 'B',
+                    ['AnsiString.__iadd__', 'AnsiString._find_settings_references', '_AnsiSettingPoint.__bool__',
+                     '_AnsiSettingPoint.__init__', 'AnsiString.__init__'], a1_items, a1_task,
+                    bounds='two operand tables with N<=2(3)/3 change points and <=2 objects each, setting objects shared '
+                    'between the operands or not, value is self, str, AnsiStr, wrong type; keys and lengths symbolic',
+                    assumes=['P4']))
